@@ -22,6 +22,34 @@ CHECK_DEADLOCK FALSE
 FAMS = ["flat", "nest1", "nest2", "inline2", "spread", "args", "inputs", "ops", "dirs", "defect", "fault0", "fault1", "dups"]
 
 
+def leaves_are_json(ctx):
+    import coerce
+    sub = vlib.Ctx("C05", ctx.tier)
+    sub.scratch = ctx.scratch
+    coerce.enumerate_and_replay(sub, coerce.OUT_FAMS, coerce.known_devs("C05"), 2)
+    ctx.evaluations += sub.evaluations
+    ctx.extra["leaf_cases_written_as_json"] = sub.evaluations
+    for v in sub.violations:
+        if "not JSON" in v.get("what", "") or "WriteJSONValue" in v.get("what", ""):
+            v["from"] = "leaves-as-json"
+            ctx.violations.append(v)
+
+
+def subscription_envelopes(ctx):
+    import registry
+    vecs, uni = registry.model_and_vectors(ctx, [1], 2, "MCPoolA", "MCInitSome")
+    sub = vlib.Ctx(ctx.prop, ctx.tier)
+    sub.scratch = ctx.scratch
+    registry.replay(sub, vecs, uni, "subscription-envelopes")
+    ctx.evaluations += sub.evaluations
+    ctx.extra["subscription_histories"] = len(vecs)
+    for v in sub.violations:
+        w = v.get("what", "")
+        if "subscri" in w and "errors" in w:
+            v["from"] = "subscription-envelopes"
+            ctx.violations.append(v)
+
+
 def run(ctx):
     quick = ctx.tier == "quick"
     # (1) the reader's position bookkeeping as a state machine: all byte class strings up to n
@@ -60,6 +88,12 @@ def run(ctx):
         ctx.violations.append({"from": "envelope", "what": "response is not a well-formed envelope: " + ", ".join(bad),
                                "case": {"request": r["text"], "layout": r["layout"], "keys": r["keys"], "dataKind": r["dataKind"],
                                         "errors": r["errors"], "json": r["json"], "rejected": r["rejected"]}})
+    # (3) the written form of every leaf value a resolver can hand over (the cases of Coerce.tla's output families: every
+    # numeric kind at every named point, strings, times, lists of them): what WriteJSONValue writes is JSON
+    leaves_are_json(ctx)
+    # (4) the answer to a subscription request is an envelope of its own: registry histories in which every other
+    # subscription request follows another client's refused request (whose errors carry positions in ITS document)
+    subscription_envelopes(ctx)
     ctx.rule = ("(1) Scanner.tla: the reader's line/column bookkeeping with its one byte look-ahead, model-checked for every string of byte classes "
                 "{token, space, LF, '#', punctuation} up to length %d: every stamped field position is on the line of the token's first byte with a positive "
                 "column; (2) every response of the execution-family cases %s (valid, invalid and refused requests, injected failures), each rendered in 5 "
